@@ -73,3 +73,17 @@ Definition expiry_ok (lastfail : list (nat * Z)) (t : Z) (cur : obs) : bool :=
      | Some (_, tf) => if tf + spec_penalty_ns <=? t then lookup (o_ids cur) (o_pens cur) id =? 0 else true
      | None => true
      end) (o_ids cur).
+
+(* routing judged against the membership the API history implies (Clients at construction + AddClient - RemoveClients), whatever
+   list the implementation keeps: the serving client is such a member and no member had a smaller (pending+penalty, completed);
+   ErrNoAvailableClients exactly when there is no member *)
+Definition route_members_ok (members : list nat) (pend : list Z) (prev cur : obs) : bool :=
+  let load := fun c => (nth c pend 0 + lookup (o_ids prev) (o_pens prev) c, lookup (o_ids prev) (o_tots prev) c) in
+  match members with
+  | [] => (o_err cur =? 1)%N
+  | _ =>
+      match o_choice cur with
+      | Some id => (o_err cur =? 0)%N && existsb (Nat.eqb id) members && forallb (fun c => lex_leb (load id) (load c)) members
+      | None => false
+      end
+  end.
